@@ -57,6 +57,10 @@ func (interp *Interpreter) SingleStepStateTransition(pc ProgramCounter) (ExitRea
 		return exitReason, newPC
 	}
 
+	if exitReason == exitContinueSelfBranch {
+		// taken branch to the instruction itself
+		return ExitContinue, newPC
+	}
 	if pc != newPC {
 		// execute branch instruction
 		return exitReason, newPC
@@ -125,7 +129,7 @@ func (interp *Interpreter) SingleStepInvokeDecodedBlocks(pc ProgramCounter) (Exi
 				return exitReason, instr.PC + ProgramCounter(instr.SkipLen) + 1
 			}
 
-			if instr.PC != newPC {
+			if instr.PC != newPC || exitReason == exitContinueSelfBranch {
 				pc = newPC
 				branchTaken = true
 				break
@@ -208,6 +212,9 @@ func (interp *Interpreter) ExecuteInstructions(pc ProgramCounter, pcPrime Progra
 			return pc + skipLength + 1, exitReason
 		}
 
+		if exitReason == exitContinueSelfBranch {
+			return newPC, ExitContinue
+		}
 		if pc != newPC {
 			// check branch
 			return newPC, exitReason
